@@ -1,1 +1,137 @@
-def main : IO Unit := IO.println "driver C07: not built yet"
+import VncModel.Basic.Proto
+import VncModel.Client.Session
+/-! Line-protocol driver for the LibVNCClient model (C07 and C08).  Same script as harness/c07.c. -/
+open VncModel VncModel.Client VncModel.Proto VncModel.Enc.Spec
+
+structure DState where
+  st : Option St := none
+  srv : Bytes := []
+  dead : Bool := false
+  zq : List (Nat × Bytes × Bytes) := []
+  fbmode : Nat := 0
+
+def showCb (s : St) : String := if s.cb.isEmpty then "-" else ",".intercalate s.cb.reverse
+
+def showFb (s : St) : String :=
+  if s.fbUnk then s!"fb={s.fb.w}:{s.fb.h}:?" else s!"fb={s.fb.w}:{s.fb.h}:{hex8 (fbCrc s.fmt s.fb)}"
+
+/-- the specification decoders disagree with the client model on this stream -/
+def specDiff (s : St) : String :=
+  if s.specUnk ∨ s.fbUnk then "" else
+  if s.specFb.w = s.fb.w ∧ s.specFb.h = s.fb.h ∧ fbCrc s.fmt s.specFb = fbCrc s.fmt s.fb then "" else " spec=DIFF"
+
+def stateLine (tag : String) (s : St) (left : Nat) : String :=
+  s!"{tag} T {showFb s} cb={showCb s} out={hex s.out} left={left}{specDiff s}"
+
+def fresh (s : St) : St := { s with out := [], cb := [] }
+
+def parseFmt (t : List String) : Option PixFmt :=
+  match t.map String.toNat? with
+  | [some bpp, some depth, some be, some tc, some rm, some gm, some bm, some rs, some gs, some bs] =>
+    some ⟨bpp, depth, be = 1, tc = 1, rm, gm, bm, rs, gs, bs⟩
+  | _ => none
+
+def dstep (d : DState) (toks : List String) : DState × List String :=
+  match toks with
+  | "client" :: rest =>
+    if d.st.isSome ∨ rest.length ≠ 13 then (d, ["bad-op"]) else
+    match parseFmt (rest.take 10) with
+    | none => (d, ["bad-op"])
+    | some f =>
+      let enc := (rest.getD 10 "").drop 4 |>.toString
+      let encs := if enc = "-" then ["tight", "zrle", "ultra", "copyrect", "hextile", "zlib", "corre", "rre", "raw"]
+                  else (enc.splitOn "+").filter (· ≠ "")
+      let cur := (rest.getD 11 "") = "cursor=1"
+      let fbm := ((rest.getD 12 "").drop 7).toString.toNat?.getD 0
+      let lim := if fbm = 2 then 8388608 else 268435456
+      ({ d with st := some { fmt := f, encs := encs, cursor := cur, allocLimit := lim }, fbmode := fbm }, ["ok"])
+  | ["seg", _] => (d, ["ok"])
+  | ["eos", _] => (d, ["ok"])
+  | ["z", id, hz, hp] =>
+    match id.toNat?, unhex? hz, unhex? hp with
+    | some i, some z, some p => ({ d with zq := d.zq ++ [(i, z, p)] }, ["ok"])
+    | _, _, _ => (d, ["ok"])
+  | ["init", hx] =>
+    match d.st, unhex? hx with
+    | some s, some b =>
+      if d.dead then (d, ["bad-op"]) else
+      let srv := d.srv ++ b
+      match initClient { fresh s with zq := d.zq } srv with
+      | .ok (s, rest) =>
+        let nm := s.name.takeWhile (· ≠ 0)
+        ({ d with st := some s, srv := rest, zq := s.zq },
+         [s!"init T {s.fb.w} {s.fb.h} name={hex nm} cb={showCb s} out={hex s.out} left={rest.length}"])
+      | .no => ({ d with st := none, dead := true, srv := [] }, ["init F"])
+      | .unk why => ({ d with st := none, dead := true, srv := [] }, [s!"init ? {why}"])
+    | _, _ => (d, ["bad-op"])
+  | ["feed", hx] =>
+    match d.st, unhex? hx with
+    | some _, some b => if d.dead then (d, ["bad-op"]) else ({ d with srv := d.srv ++ b }, ["ok"])
+    | _, _ => (d, ["bad-op"])
+  | ["msg", hx] =>
+    match d.st, unhex? hx with
+    | some s, some b =>
+      if d.dead then (d, ["bad-op"]) else
+      let srv := d.srv ++ b
+      match handleMessage { fresh s with zq := d.zq } srv with
+      | .ok (s, rest) => ({ d with st := some s, srv := rest, zq := s.zq }, [stateLine "msg" s rest.length])
+      | .no => ({ d with dead := true, srv := [] }, ["msg F"])
+      | .unk why => ({ d with dead := true, srv := [] }, [s!"msg ? {why}"])
+    | _, _ => (d, ["bad-op"])
+  | ["drain"] =>
+    match d.st with
+    | some s =>
+      if d.dead then (d, ["bad-op"]) else
+      let rec go : Nat → Nat → St → Bytes → (Nat × Res (St × Bytes))
+        | 0, calls, s, bs => (calls, .ok (s, bs))
+        | fuel + 1, calls, s, bs =>
+          if bs.isEmpty then (calls, .ok (s, bs)) else
+          match handleMessage s bs with
+          | .ok (s, rest) => go fuel (calls + 1) s rest
+          | .no => (calls + 1, .no)
+          | .unk w => (calls + 1, .unk w)
+      match go 10000 0 { fresh s with zq := d.zq } d.srv with
+      | (calls, .ok (s, rest)) =>
+        ({ d with st := some s, srv := rest, zq := s.zq }, [s!"calls={calls} " ++ stateLine "drain" s rest.length])
+      | (calls, .no) => ({ d with dead := true, srv := [] }, [s!"calls={calls} drain F"])
+      | (calls, .unk why) => ({ d with dead := true, srv := [] }, [s!"calls={calls} drain ? {why}"])
+    | none => (d, ["bad-op"])
+  | ["fill", x, y, w, h, c] =>
+    match d.st, x.toNat?, y.toNat?, w.toNat?, h.toNat?, c.toNat? with
+    | some s, some x, some y, some w, some h, some c =>
+      if d.dead then (d, ["bad-op"]) else
+      let s := { fresh s with fb := fillRectangle s.fb x y w h (c % 2 ^ (8 * s.bpp)), specUnk := true }
+      ({ d with st := some s }, [stateLine "fill" s d.srv.length])
+    | _, _, _, _, _, _ => (d, ["bad-op"])
+  | ["copy", sx, sy, w, h, dx, dy] =>
+    match d.st, [sx, sy, w, h, dx, dy].map String.toNat? with
+    | some s, [some sx, some sy, some w, some h, some dx, some dy] =>
+      if d.dead then (d, ["bad-op"]) else
+      let s := { fresh s with fb := copyFromRect s.fb sx sy w h dx dy, specUnk := true }
+      ({ d with st := some s }, [stateLine "copy" s d.srv.length])
+    | _, _ => (d, ["bad-op"])
+  | ["bitmap", x, y, w, h, hx] =>
+    match d.st, [x, y, w, h].map String.toNat?, unhex? hx with
+    | some s, [some x, some y, some w, some h], some b =>
+      if d.dead ∨ b.length ≠ w * h * s.bpp then (d, ["bad-op"]) else
+      match readPixels s.bpp (w * h) b with
+      | some (ps, _) =>
+        let s := { fresh s with fb := copyRectangle s.fb x y w h ps, specUnk := true }
+        ({ d with st := some s }, [stateLine "bitmap" s d.srv.length])
+      | none => (d, ["bad-op"])
+    | _, _, _ => (d, ["bad-op"])
+  | ["req", x, y, w, h, i] =>
+    match d.st, [x, y, w, h, i].map String.toNat? with
+    | some s, [some x, some y, some w, some h, some i] =>
+      if d.dead then (d, ["bad-op"]) else
+      let s := sendFBUR (fresh s) (x % 65536) (y % 65536) (w % 65536) (h % 65536) (i ≠ 0)
+      ({ d with st := some s }, [s!"req T out={hex s.out}"])
+    | _, _ => (d, ["bad-op"])
+  | ["fbdump"] =>
+    match d.st with
+    | some s => if d.dead then (d, ["bad-op"]) else (d, [hex (s.fb.px.toList.flatMap (pixBytes s.bpp))])
+    | none => (d, ["bad-op"])
+  | ["end"] => ({ d with st := none, dead := true }, ["ok"])
+  | _ => (d, ["bad-op"])
+
+def main : IO Unit := runDriver ({} : DState) dstep
